@@ -1046,10 +1046,13 @@ func genSecAuto(g *Gen) {
 		return name
 	}
 	prev := "G"
+	var w1Total int64 // everything W1 owns: three standard coins
 	for b := 1; b <= 4; b++ {
 		var c string
 		if b == 1 {
-			c = tx("A1:%d;A2:%d;A3:%d;A5:%d", 50000000000+r.Int63n(1000000), 30000000000+r.Int63n(1000000), 20000000000+r.Int63n(1000000), 40000000000)
+			v1, v2, v3 := 50000000000+r.Int63n(1000000), 30000000000+r.Int63n(1000000), 20000000000+r.Int63n(1000000)
+			w1Total = v1 + v2 + v3
+			c = tx("A1:%d;A2:%d;A3:%d;A5:%d", v1, v2, v3, 40000000000)
 		} else {
 			c = tx("X1:%d", 100+r.Int63n(100))
 		}
@@ -1067,6 +1070,14 @@ func genSecAuto(g *Gen) {
 		r.Read(b)
 		return hex.EncodeToString(b)
 	}
+	// the keystore-level SignHash leaves the address manager unlocked (by design; its callers in package masswallet
+	// clear afterwards): a wallet-level signing call that follows must still check ITS passphrase
+	r1 := rand.New(rand.NewSource(g.Seed*15485863 + int64(g.N)))
+	wp1, _ := wrongOf(r1, privPass("W1"), []string{privPass("W2"), pubPass})
+	g.Op("tx-sign", "tx S0 900000 C1:0 X1:%d", 1000+r1.Int63n(1000000))
+	g.Op("kssign-right", "kssign W1 A1 %s", right)
+	g.Op("sign-wrong-while-unlocked", "sign W1 %s %s S0", hexp(wp1), secAllFlags[r1.Intn(len(secAllFlags))])
+	g.Op("q-klocked", "klocked")
 	for i := 0; i < g.Scale(14, 40); i++ {
 		fl := secAllFlags[r.Intn(6)]
 		if r.Intn(10) == 0 {
@@ -1106,8 +1117,71 @@ func genSecAuto(g *Gen) {
 			g.Op("q-klocked", "klocked")
 		}
 	}
+	// A signing call with the RIGHT passphrase that is refused at an input >= 1 after input 0 has been signed (SINGLE,
+	// three inputs, one output: all of W1's coins, no change), then a WRONG passphrase on a signable transaction: the
+	// first call must leave every keystore locked, the second must fail (own random source: the rest of the stream
+	// does not move).
+	r2 := rand.New(rand.NewSource(g.Seed*7919 + int64(g.N)))
+	fee := int64(100000)
+	g.Op("auto-abort-right", "autosign W1 %s %s pay - X1:%d 0 %d - - must", right, pick(r2, "SINGLE", "SINGLE|ANYONECANPAY"), w1Total-fee, fee)
+	g.Op("q-klocked", "klocked")
+	wp, _ := wrongOf(r2, privPass("W1"), []string{privPass("W2"), pubPass})
+	g.Op("auto-wrong-after-abort", "autosign W1 %s %s pay - X1:%d 0 %d - - must", hexp(wp), pick(r2, "ALL", "NONE", "ALL|ANYONECANPAY"), 100000000+r2.Int63n(5000000000), fee)
+	g.Op("q-klocked", "klocked")
 	g.Op("q-kstate", "kstate")
 	g.Op("q-kscan", "kscan")
+}
+
+// abortThenWrong (seeded/C03-5): (a) `sign` with the right passphrase on a transaction whose input 0 is a coin of the
+// wallet and whose input 1 makes signWitnessTx return early (SINGLE without a matching output / an output the wallet
+// has never seen), a lock query, then a wrong passphrase on a fully signable transaction — which must fail and return no
+// signature; (b) the keystore-level SignHash (`kssign`, leaves the address manager unlocked by design) followed by a
+// wallet-level signing call with a wrong passphrase: the passphrase is checked on EVERY signing call, unlocked or not.
+// Uses its own random source so that the histories generated before and after it stay as they were.
+func (s *signGen) abortThenWrong(r2 *rand.Rand) {
+	l := s.l
+	oldL, oldS := l.r, s.r
+	l.r, s.r = r2, r2
+	defer func() { l.r, s.r = oldL, oldS }()
+	for _, w := range l.wallets {
+		conf, pend := s.coinsOf(w)
+		var all []gCoin
+		for _, c := range append(append([]gCoin{}, conf...), pend...) {
+			if c.cls == "std" {
+				all = append(all, c)
+			}
+		}
+		if len(all) == 0 {
+			continue
+		}
+		r2.Shuffle(len(all), func(i, j int) { all[i], all[j] = all[j], all[i] })
+		good := s.defineSignTx([]string{s.inSpec(all[0], 0)}, 1, all[0].amt)
+		if len(all) >= 2 {
+			ins := []string{s.inSpec(all[0], 0), s.inSpec(all[1], 0)}
+			flag := pick(r2, "SINGLE", "SINGLE|ANYONECANPAY")
+			if r2.Intn(2) == 0 {
+				for _, c := range sortedCoins(l.tip().utxo) {
+					if l.owner[c.addr] == "" && c.cls == "std" {
+						ins[1] = c.key() // input 1: a stranger's coin (ErrUTXONotExists after input 0 was signed)
+						flag = secAllFlags[r2.Intn(len(secAllFlags))]
+						break
+					}
+				}
+			}
+			bad := s.defineSignTx(ins, 1, all[0].amt)
+			l.op("sign-abort-right", "sign %s %s %s %s", w, s.passFor(w, true), flag, bad)
+			l.op("q-klocked", "klocked")
+			l.op("sign-wrong-after-abort", "sign %s %s %s %s", w, s.passFor(w, false), pick(r2, "ALL", "NONE", "ALL|ANYONECANPAY"), pick(r2, good, good, bad))
+			l.op("q-klocked", "klocked")
+		}
+		l.op("kssign-right", "kssign %s %s %s", w, all[0].addr, s.passFor(w, true))
+		l.op("sign-wrong-while-unlocked", "sign %s %s %s %s", w, s.passFor(w, false), secAllFlags[r2.Intn(len(secAllFlags))], good)
+		l.op("q-klocked", "klocked")
+		l.op("kssign-right", "kssign %s %s %s", w, all[0].addr, s.passFor(w, true))
+		l.op("sign-right-while-unlocked", "sign %s %s %s %s", w, s.passFor(w, true), secAllFlags[r2.Intn(len(secAllFlags))], good)
+		l.op("q-klocked", "klocked")
+		return
+	}
 }
 
 func genSecSign(g *Gen) {
@@ -1117,6 +1191,10 @@ func genSecSign(g *Gen) {
 	for h := 0; h < nHist; h++ {
 		if h%9 == 0 {
 			genSecAuto(g)
+			continue
+		}
+		if h%9 == 4 { // stale wallet x block-file offsets, wrong passphrase x unresolvable input (gen_sec_stale.go)
+			genSecStale(g)
 			continue
 		}
 		l := newLedGen(g, "sec")
@@ -1158,6 +1236,7 @@ func genSecSign(g *Gen) {
 				}
 			}
 		}
+		s.abortThenWrong(rand.New(rand.NewSource(g.Seed*104729 + int64(h))))
 		l.op("q-klocked", "klocked")
 		l.op("q-kscan", "kscan")
 	}
